@@ -21,6 +21,24 @@
     `token_span()` and `parse_span()` read off the lexer right after that call
     (`C04_iter_is_next_loop`) — so everything above is a statement about
     sequences of plain `next` calls.
+  * the parse-span clause on arbitrary operation HISTORIES (`LexOps.exec`: any
+    sequence of `next`, `next_if`, `peek`, `is_empty_with_filter`, `advance_to`,
+    `advance_up_to`, `set_filter`, `with_filter`, `start_sublex`, `into_sublexer`,
+    span queries, clones `forkBegin … forkEnd`, and the metrics builders), not only
+    on exhausting a fresh lexer: `LexParseSpan.parseSpanTrack` is the driver's
+    oracle (`parseSpanOK` in `Fam.Lex.runOps`) restated over model values.  Outside
+    clones, tracking starts at the beginning of the history and restarts at every
+    sub-lex mark; after each `next` / `next_if` that returns a token,
+    `parse_span().start` is (by byte offset) the start of the FIRST token delivered
+    by `next` / `next_if` since tracking (re)started and `parse_span().end =
+    token_span().end`; an `advance_to` / `advance_up_to` stops the tracking until
+    the next sub-lex mark; lookahead, filter changes and span queries do not affect
+    it.  `C04_parse_span_history`: under the scanner contract the tracker accepts
+    every history without a metrics builder.  `C04_parse_span_history_metrics`:
+    with metrics builders anywhere as well, if the contract holds at every metrics
+    and re-measuring a byte offset yields a position at that byte offset
+    (`LexParseSpan.MeasOK`; true of the driver's `measureText` on well-formed text,
+    `LexParseSpan.measureText_byte`).  `ScanFinal` is not needed.
 
   Lean: `Lexer.iterWithSpans` is the model of `lexer.rs` (TephraModel.Lexer);
   the driver checks on generated cases that the real lexer, the model and
@@ -29,6 +47,7 @@
 -/
 import TephraProofs.LexIter
 import TephraProofs.LexIterLoop
+import TephraProofs.LexParseSpan
 
 namespace Tephra.Props
 open Tephra Tephra.Spec
@@ -151,5 +170,75 @@ example :
   simp only at this
   rw [this]
   decide
+
+/-! ### the parse-span clause on operation histories -/
+
+/-- Parse span on histories.  `LexParseSpan.parseSpanTrack depth first known ops obs` walks a
+history `ops` and the per-operation observations `obs = LexOps.exec …` (output and the lexer the
+operation left) exactly as the driver's `parseSpanOK` does on the real code's observations:
+`depth` counts open clones (inside a clone nothing is checked), `first` is the start of the first
+token delivered since tracking (re)started, `known` says whether tracking is on.  A sub-lex mark
+sets `first := none, known := true`; `advance_to` / `advance_up_to` set `known := false`; a
+`next` / `next_if` whose output is a token, with tracking on, must satisfy
+`parseSpan.s.byte = f.byte ∧ parseSpan.e = tokenSpan.e` for `f := first.getD tokenSpan.s`, and
+sets `first := some f`; every other operation leaves the tracker alone.
+Statement: under the scanner contract, the tracker started with `depth = 0, first = none,
+known = true` accepts the observations of every history without a metrics builder, from a fresh
+lexer.  Unbounded: any scanner state type, token type, scanner, filter table, metrics, length,
+history (predicates of `next_if` / `advance_*` are arbitrary functions). -/
+theorem C04_parse_span_history (E : LexEnv σ τ) (m : Metrics) (len : Nat) (s0 : σ)
+    (ok : ScanOK E m len) (ops : List (LexOps.Op τ)) (hm : LexOps.metricsFree ops = true) :
+    LexParseSpan.parseSpanTrack 0 none true ops (LexOps.exec E [Lexer.new s0 m len] ops) = true :=
+  LexParseSpan.parse_span_history ok s0 ops hm
+
+/-- The same for every history, metrics builders included (they re-measure the positions the lexer
+holds, which is why the start is compared by byte offset): the scanner contract must then hold at
+every metrics, and `E.measure m b` must be a position at byte offset `b`. -/
+theorem C04_parse_span_history_metrics (E : LexEnv σ τ) (len : Nat)
+    (okAll : ∀ m, ScanOK E m len) (hmeas : ∀ m b, (E.measure m b).byte = b)
+    (m : Metrics) (s0 : σ) (ops : List (LexOps.Op τ)) :
+    LexParseSpan.parseSpanTrack 0 none true ops (LexOps.exec E [Lexer.new s0 m len] ops) = true :=
+  LexParseSpan.parse_span_history_metrics ⟨okAll, hmeas⟩ m s0 ops
+
+/-- The measure hypothesis holds of the driver's environment on well-formed text. -/
+theorem C04_measureText_byte (cfg : ScanCfg) (t : Text) (hwf : Text.WF t) (m : Metrics) (b : Nat) :
+    ((lexEnv cfg t).measure m b).byte = b :=
+  LexParseSpan.measureText_byte t hwf m b
+
+open LexParseSpan.Witness in
+/-- Non-vacuity: text `a ws b ws c`, every filter rejecting `ws`; the history
+`with_filter; next; peek; start_sublex; next; next`.  The hypotheses hold, the history has no
+metrics builder, the tracker's checks are real (three tokens are delivered with tracking on), and
+the observations are: before the mark the parse span is `[a.start, a.end]`; after the mark it is
+`[b.start, b.end]`, then `[b.start, c.end]` — not `[a.start, …]`. -/
+example : ScanOK EP ⟨.lf, 4⟩ 5 ∧ LexOps.metricsFree opsP = true ∧
+    (LexOps.exec EP [Lexer.new () ⟨.lf, 4⟩ 5] opsP).map (fun o => (o.1, o.2.tokenSpan, o.2.parseSpan)) =
+      [(.unit, ⟨⟨0, 0, 0⟩, ⟨0, 0, 0⟩⟩, ⟨⟨0, 0, 0⟩, ⟨0, 0, 0⟩⟩),
+       (.tok (some 1), ⟨⟨0, 0, 0⟩, ⟨1, 0, 1⟩⟩, ⟨⟨0, 0, 0⟩, ⟨1, 0, 1⟩⟩),
+       (.tok (some 2), ⟨⟨0, 0, 0⟩, ⟨1, 0, 1⟩⟩, ⟨⟨0, 0, 0⟩, ⟨1, 0, 1⟩⟩),
+       (.unit, ⟨⟨1, 0, 1⟩, ⟨1, 0, 1⟩⟩, ⟨⟨1, 0, 1⟩, ⟨1, 0, 1⟩⟩),
+       (.tok (some 2), ⟨⟨2, 0, 2⟩, ⟨3, 0, 3⟩⟩, ⟨⟨2, 0, 2⟩, ⟨3, 0, 3⟩⟩),
+       (.tok (some 3), ⟨⟨4, 0, 4⟩, ⟨5, 0, 5⟩⟩, ⟨⟨2, 0, 2⟩, ⟨5, 0, 5⟩⟩)] ∧
+    LexParseSpan.parseSpanTrack 0 none true opsP (LexOps.exec EP [Lexer.new () ⟨.lf, 4⟩ 5] opsP) = true :=
+  ⟨scanP_ok _, rfl, P_obs, C04_parse_span_history EP _ 5 () (scanP_ok _) opsP rfl⟩
+
+open LexParseSpan.Witness in
+/-- The tracker is not trivially `true`: fed the same observations but started as if a token at
+byte 1 had already been delivered (`first = some ⟨1, 0, 1⟩`), it rejects them. -/
+example : LexParseSpan.parseSpanTrack 0 (some ⟨1, 0, 1⟩) true opsP
+    (LexOps.exec EP [Lexer.new () ⟨.lf, 4⟩ 5] opsP) = false := by
+  simp [opsP, LexParseSpan.parseSpanTrack, LexParseSpan.isNoneOut, LexOps.exec, LexOps.applyOp,
+    Lexer.withFilter, Lexer.setFilter, Lexer.peek, Lexer.bufferNext,
+    Lexer.bufferLoop, Lexer.next, Lexer.nextLoop, Lexer.startSublex, Lexer.new, EP, scanP,
+    Lexer.filtered, Pos.zero, Lexer.tokenSpan, Lexer.parseSpan, Span.enclosing]
+
+open LexParseSpan.Witness in
+/-- Non-vacuity of the version with metrics builders: the hypotheses hold of `EP`, and the history
+`with_filter; next; with_tab_width(8); next; next` contains a builder. -/
+example : (∀ m, ScanOK EP m 5) ∧ (∀ m b, (EP.measure m b).byte = b) ∧
+    LexOps.metricsFree opsPM = false ∧
+    LexParseSpan.parseSpanTrack 0 none true opsPM (LexOps.exec EP [Lexer.new () ⟨.lf, 4⟩ 5] opsPM) = true :=
+  ⟨scanP_ok, fun _ _ => rfl, rfl,
+    C04_parse_span_history_metrics EP 5 scanP_ok (fun _ _ => rfl) _ () opsPM⟩
 
 end Tephra.Props
